@@ -181,7 +181,23 @@ def symbolic_while(eng, s, fr):
     loop_old = OldNS(dict(fr.vars), eng.heap.snapshot())
     ghost = {'loop_old': loop_old}
     eng.run.oblige(f'loop-init:{tag}', 'inv', _clause(eng, con, spec['inv'], fr, ghost), s.lineno)
-    eng.heap.havoc(eng.allowed_fn(None))
+    if 'modifies' in spec:     # same as for-loops: loop<K>_modifies bounds what an iteration may change
+        b = _bind(eng, fr, ghost)
+        names = [a.arg for a in spec['modifies'].args.args]
+        mfr = Frame(None, con.module, {x: b[x] for x in names}, None, None)
+        saved = eng.mode
+        eng.mode = SPEC
+        try:
+            try:
+                eng.exec_block(spec['modifies'].body, mfr)
+                mods = []
+            except ReturnEx as r:
+                mods = list(eng.iter_const(r.value))
+        finally:
+            eng.mode = saved
+        eng.heap.havoc(eng.allowed_fn(mods))
+    else:
+        eng.heap.havoc(eng.allowed_fn(None))
     havoc_locals(eng, fr, assigned_names(s.body))
     eng.run.assume(_clause(eng, con, spec['inv'], fr, ghost))
     measure0 = None
